@@ -62,7 +62,9 @@ Segs == <<
   Seg("open", "p", "<p class={s  tu}>", <<A("class", 3, "{s  tu}", 9)>>),                   \* class names inside an expression value
   Seg("self", "b", "<b id=a class={ s t }/>", <<A("id", 3, "a", 6), A("class", 8, "{ s t }", 14)>>),
   Seg("open", "a", "<a class=\"x\ty\n z\">", <<A("class", 3, "\"x\ty\n z\"", 9)>>),
-  Seg("open", "b", "<b title=\"  \" class=\" \">", <<A("title", 3, "\"  \"", 9), A("class", 14, "\" \"", 20)>>) >>        \* 32: values made of blanks only (a value range, no class token)                 \* class names separated by a tab and a line break
+  Seg("open", "b", "<b title=\"  \" class=\" \">", <<A("title", 3, "\"  \"", 9), A("class", 14, "\" \"", 20)>>),         \* 32: values made of blanks only (a value range, no class token)
+  [Seg("special", "script", "<script>// it's</script>", <<>>) EXCEPT !.body = 8],        \* 33, 34: a lone quote in the body (a later tag may hold the next one)
+  [Seg("special", "style", "<style>/* 5\" */</style>", <<>>) EXCEPT !.body = 7] >>
 
 (* generated families: "<" name attribute-part end, script / style with a body and their closing tag, opaque sections *)
 GenAttrs == << [txt |-> "", attrs |-> <<>>],
@@ -75,7 +77,7 @@ GenAttrs == << [txt |-> "", attrs |-> <<>>],
                [txt |-> " h=a=b&c=d", attrs |-> <<A("h", 1, "a=b&c=d", 3)>>],
                [txt |-> " a-b=\"c\" d=\"\"", attrs |-> <<A("a-b", 1, "\"c\"", 5), A("d", 9, "\"\"", 11)>>],                 \* 9: a name with a dash, an empty value
                [txt |-> " [x.y]=\"z\" :w v-on:k", attrs |-> <<A("[x.y]", 1, "\"z\"", 7), A(":w", 11, NONE, 0), A("v-on:k", 14, NONE, 0)>>] >>   \* 10: [..] : - . in names
-GenBodies == <<"", "a<b", "x</", "i<", "</p>", "<!--", "if(a<b)\"</x>\"">>
+GenBodies == <<"", "a<b", "x</", "i<", "</p>", "<!--", "if(a<b)\"</x>\"", "// it's", "/* 5\" */">>
 GenOpaques == << <<"<!--", "-->">>, <<"<![CDATA[", "]]>">>, <<"<?", "?>">>, <<"<!DOCTYPE", ">">> >>
 GenOBodies == <<" <a> ", "", "-", "]", "a[0]]", " x --", "?", ">", "<b>", " e \"-->]]>?><b>\" ">>   \* 10: every closer inside a quoted string
 SpecialNames == {"script", "style"}
